@@ -8,10 +8,22 @@ use crate::{
 };
 use fmt::Debug;
 use rusty_pool::ThreadPool;
+#[cfg(not(rs_store_verif))]
 use std::sync::{Arc, Mutex};
+#[cfg(rs_store_verif)]
+use simrt::sync::{Arc, Mutex};
+#[cfg(not(rs_store_verif))]
 use std::thread::JoinHandle;
+#[cfg(rs_store_verif)]
+use simrt::thread::JoinHandle;
+#[cfg(not(rs_store_verif))]
 use std::time::{Duration, Instant};
+#[cfg(rs_store_verif)]
+use simrt::time::{Duration, Instant};
+#[cfg(not(rs_store_verif))]
 use std::{fmt, thread};
+#[cfg(rs_store_verif)]
+use {simrt::thread, std::fmt};
 
 use crate::iterator::{StateIterator, StateIteratorSubscriber};
 use crate::store::{Store, StoreError, DEFAULT_CAPACITY, DEFAULT_STORE_NAME};
